@@ -86,7 +86,8 @@ struct Txt {
 	Txt& operator<<(char const* c) { s += c; return *this; }
 	Txt& operator<<(std::string const& c) { s += c; return *this; }
 	Txt& operator<<(char c) { s += c; return *this; }
-	template<class I, std::enable_if_t<std::is_integral_v<I> && !std::is_same_v<I, char>, int> = 0>
+	Txt& operator<<(bool b) { s += b ? '1' : '0'; return *this; }
+	template<class I, std::enable_if_t<std::is_integral_v<I> && !std::is_same_v<I, char> && !std::is_same_v<I, bool>, int> = 0>
 	Txt& operator<<(I v) { char b[24]; auto r = std::to_chars(b, b + 24, v); s.append(b, r.ptr); return *this; }
 };
 
